@@ -27,6 +27,7 @@ RULES = {
     "C09.ROW": "Ready(Some) edge => item stored once in the input's own row slot, state Ready on the same index",
     "C09.EMIT": "row returned only under all(is_ready) evaluated after the write; positional, swapped out once, unmodified; states reset, all re-armed; incomplete row => scan continues",
     "C09.END": "Ready(None) edge => done := true, Ready(None) in the same call, nothing polled/taken; None returns only on such edges",
+    "C09.DROP": "buffered items of an unfinished row are dropped exactly once: by the destructor, for Ready slots, on every path (C02.ZIP / C02.POLLDROP run for zip)",
     "C09.EXT": "StreamExt::zip(self, other) = Zip::zip((self, other))",
 }
 
@@ -45,6 +46,9 @@ def run(ctx):
                 c03.rule_guard(ctx, u)
             rule_emit(ctx, M, u)
             rule_end(ctx, M, u)
+            with ctx.renamed({"C02.ZIP": "C09.DROP", "C02.POLLDROP": "C09.DROP"}):
+                c02.rule_zip(ctx, M, u)
+                c02.rule_polldrop(ctx, M, u)
         n = joinlike.rule_ext(ctx, M, "stream::stream_ext::StreamExt", "zip", "zip", "C09.EXT")
         ctx.require(n >= 1, "StreamExt::zip")
         na = 1 if cfg == "core" else 2
